@@ -382,7 +382,8 @@ class Budget:
 
     def __init__(self, seconds):
         self.t0 = time.time()
-        self.seconds = seconds
+        cap = float(os.environ.get("VERIF_BUDGET_S", "0") or 0)   # optional cap for time-boxed sweeps
+        self.seconds = min(seconds, cap) if cap > 0 else seconds
 
     def left(self):
         return self.seconds - (time.time() - self.t0)
